@@ -187,3 +187,22 @@ reg("C14", "model_checking", "TLA+ spec CemiHandler (dispatch table, fresh-confi
     "confirmation that followed the hand-over, failure within 3 s of the interface call returning.",
     "Trusted: TLC, the virtual-time loop, the scripted interface. T_Data_Tag_Group frames may or may not reach management (the statement is silent).",
     "DESIGN.md section 5 C14")
+
+reg("C15", "exploration", "TLA+ law C15Ok (DataSecure.tla, symbolic protocol model-checked) evaluated by TLC on recorded sender/receiver sessions of two real XKNX instances",
+    "The symbolic Data Secure protocol with an attacker is model-checked (only what was sent is delivered); two real XKNX instances with the same group key exchange "
+    "GroupValueRead / Write / Response telegrams of APDU lengths 1..240 (boundary lengths in quick) with random keys through CEMIHandler.send_telegram and handle_raw_cemi, plus "
+    "authentication-only frames; TLC judges each session: delivered, equal APDU, marked Data Secure, no key issue.",
+    "Trusted: TLC; the frame octets themselves are judged by C19.",
+    "DESIGN.md section 5 C15", driver="c15", entry="run15")
+reg("C16", "exploration", "TLA+ bit map of a secured L_Data frame with the verdict per field (DataSecure.tla) evaluated by TLC on every single-bit mutant of real secured frames",
+    "Every single bit of secured frames (APDU lengths 2, 3, 15; both algorithms; more lengths in thorough) is flipped and the frame given to a real receiver; wrong key, "
+    "truncations and an unknown sender likewise; TLC classifies the bit with the TLA+ bit map and judges: protected fields (addresses, address type, frame format, TPCI, SCF, "
+    "sequence number, payload, MAC) -> discarded; priority / repeat / hop count / frame type -> delivered unchanged; structural bits -> never raises, never another APDU.",
+    "Trusted: TLC, the transcription of the cEMI L_Data layout in DataSecure.tla (asserted at the field borders).",
+    "DESIGN.md section 5 C16", driver="c15", entry="run16")
+reg("C18", "exploration", "TLA+ laws C18Ok (DataSecure.tla) evaluated by TLC on recorded plain / outgoing / authenticated-but-malformed / garbage frames at a real receiver",
+    "Plain GroupValueWrite / Response / Read frames to a keyed and an unkeyed address (devices, telegram callbacks and key-issue callbacks observed), outgoing telegrams to both, "
+    "correctly authenticated frames whose decrypted APDU is malformed (fixed list plus random octets), and random garbage after a valid L_Data header are given to a real receiver; "
+    "TLC judges: plain data to a secured address is reported to the key-issue callback only, outgoing telegrams to it are secured, nothing raises.",
+    "Trusted: TLC; authenticated frames are built with the library's own SecureData (octets judged by C19).",
+    "DESIGN.md section 5 C18", driver="c15", entry="run18")
